@@ -75,11 +75,10 @@ def escaping(ctx, report, path, name):
 
 
 def spans(ctx, report):
-    for path, q in ((DFXP, "DFXPWriter._recreate_span"), (EXTRAS, "LegacyDFXPWriter._recreate_span")):
-        fn = ctx.index.get_function(path, q)
-        report.covered(fn)
-        table = span_table(ctx, fn)
-        check_alternation(report, fn, table, "2", every_input=True)
+    # folded on every flat node sequence (the flag-automaton extraction this replaces alarmed when the span terminator was
+    # moved into a helper)
+    from . import markup_writer_fold
+    markup_writer_fold.span_sequences(ctx, report, "R-SPAN-TYPESTATE", "2", ("DFXPWriter", "LegacyDFXPWriter"))
 
 
 def references(ctx, report):
